@@ -114,6 +114,15 @@ CLAIMED = {
         "Trusted: Lean kernel + standard axioms; JSON float round trip of Python; default output column names and input_name of TF columns are parameters of the model.",
         "DESIGN.md §6 C09",
     ),
+    "C08": (
+        "Lean 4 theorems about a model of failure atomicity (programs of backend statements, writes to the observable linker state, try/finally): copy-then-commit and "
+        "temporaries-restored-in-finally are atomic for EVERY number of statements and EVERY fault point, hence every public operation of the shape table is; a fault fires iff its index is below the "
+        "statement count; the shapes the code had before the repairs (mutate-then-run, restore without finally) are provably not atomic. Tie = exhaustive fault enumeration: every backend "
+        "statement of every faultable public operation is failed in turn through a wrapper of the real DatabaseAPI (+ user-level failures); the saved model, rules, flags and link type must be "
+        "unchanged and a random continuation + predict() must equal the same on a reference linker that never made the failed call.",
+        "Trusted: Lean kernel + standard axioms; the shape table is read off the code by hand (the fault enumeration ties it to the running code); C07 for the harmlessness of left-over tables.",
+        "DESIGN.md §6 C08",
+    ),
 }
 PENDING_REASON = "check not built yet (model/theorems/correspondence under construction per DESIGN.md §10b); not claimed until all three exist"
 
@@ -133,7 +142,7 @@ for p in props:
             "engine": "lean4+correspondence",
             "level_claimed": {"category": "proof", "text": text, "design_ref": ref},
             "level_note": note,
-            "technique": "machine-checked proof in Lean 4 about a hand-written executable model + differential correspondence check against the running code",
+            "technique": "machine-checked proof in Lean 4 about a hand-written executable model + differential correspondence check against the running code" if pid != "C08" else "machine-checked proof in Lean 4 about an effect model + exhaustive fault-point enumeration against the running code",
         }
     )
 manifest = {
